@@ -179,13 +179,18 @@ def c13_shards(tier, prop="C13", mon="C13"):
     for ring in (1, 2, 3, 8):
         evs = ev4 if ring < 8 else "+a:R,+d:R"
         sh.append(mcx("queue-alone-r%d" % ring, ring=ring, prop=prop, table=T_Q, cap=12, shared=ring % 2, gen_mode="none", refuse_write=1,
-                      ecodes_R="OK,DATA_OK,DATA_NEXT", ecodes_T="OK", max_inv=1, tok=1, ev=evs, act="trigger,queries", trig_budget=0, mon=mon))
+                      ecodes_R="OK,DATA_OK,DATA_NEXT,HEXIT_OK", ecodes_T="OK,HEXIT_ERR", max_inv=1, tok=1, ev=evs, act="trigger,queries", trig_budget=0, mon=mon))
+    # (0) bounded searches first (trigger budget, one line): they terminate even if a change makes the state space infinite
+    for ring in (1, 2, 3):
+        sh.append(mcx("queue-bounded-r%d" % ring, ring=ring, prop=prop, table=T_Q, cap=12, shared=ring % 2, name_alpha="HK", max_name=1, args_alpha="1", max_args=0, suffix_mask=5, lines=1,
+                      refuse_read=1, refuse_write=1, codes_W="HOLD,OK", codes_U="OK", ecodes_R="OK,DATA_OK,DATA_NEXT,HEXIT_OK,HEXIT_ERR", ecodes_T="OK,HEXIT_ERR", max_inv=1, tok=1,
+                      ev=ev4, act="trigger,hold,queries", trig_budget=ring + 2, mon=mon))
     # (ii) with command traffic (a held command and an answering one)
     for ring in (1, 2, 3):
         for shared in (0, 1):
             full = (ring == 1) or not quick
             sh.append(mcx("queue-traffic-r%d-sh%d" % (ring, shared), ring=ring, prop=prop, table=T_Q, cap=12, shared=shared, name_alpha="HK", max_name=2, args_alpha="1", max_args=0,
-                          suffix_mask=5, lines=0 if full else 1, refuse_read=1, refuse_write=1, codes_W="HOLD,OK", codes_U="OK", ecodes_R="OK,DATA_OK,DATA_NEXT", ecodes_T="OK",
+                          suffix_mask=5, lines=0 if full else 1, refuse_read=1, refuse_write=1, codes_W="HOLD,OK", codes_U="OK", ecodes_R="OK,DATA_OK,DATA_NEXT,HEXIT_OK,HEXIT_ERR", ecodes_T="OK",
                           max_inv=1, tok=1, ev=("+a:R,+b:R,+d:R" if ring < 3 else "+a:R,+d:R"), act="trigger,hold,queries", trig_budget=0 if full else ring + 2, mon=mon))
     return sh
 
@@ -289,7 +294,7 @@ PLANS["C18"] = p_c18
 
 # ---------------------------------------------------------------- C20 history independence
 
-T_HIST = "+S:W,vu1rw;+R:R,vu1ro;+U:UT;D:W,i"
+T_HIST = "+SR:U;+S:W,vu1rw;+RA:R,vu1ro;+U:UT;D:W,i"   # +S is a proper prefix of the earlier +SR; +R abbreviates +RA
 
 
 def c20_shards(tier):
@@ -297,12 +302,15 @@ def c20_shards(tier):
     sh = []
     for cap, shared, aa, ma in ((8, 0, "1-", 2), (8, 1, "1-", 2), (6, 0, "1", 6), (6, 1, "1", 6)):
         for lower in (0, 1):
-            sh.append(mcx("history-cap%d-sh%d-lc%d" % (cap, shared, lower), prop="C20", table=T_HIST, cap=cap, shared=shared, name_alpha="+SRUD", max_name=3 if quick else 4,
-                          args_alpha=aa, max_args=ma, D=1, dev=DEV, lines=0, crlf=1, blank=1, lower=lower, refuse_read=1, refuse_write=1,
-                          codes_W="OK,ERROR", codes_R="DATA_OK,OK", codes_U="OK,LIST", codes_T="DATA_OK,LIST", max_inv=1, mon="C20"))
+            # lines=0: fixpoint over unboundedly many lines.  lines=3 first: a bounded search that terminates even if a change
+            # makes the residue grow without bound (the fixpoint search is depth first and could get lost in such a space)
+            for lines in ((3, 0) if lower == 0 else (0,)):
+                sh.append(mcx("history-cap%d-sh%d-lc%d-l%d" % (cap, shared, lower, lines), prop="C20", table=T_HIST, cap=cap, shared=shared, name_alpha="+SRUDA", max_name=3 if quick else 4,
+                              args_alpha=aa, max_args=ma, D=1 if lines == 0 else 0, dev=DEV, lines=lines, crlf=1, blank=1, lower=lower, refuse_read=1 if lines == 0 else 0, refuse_write=1 if lines == 0 else 0,
+                              codes_W="OK,ERROR", codes_R="DATA_OK,OK", codes_U="OK,LIST", codes_T="DATA_OK,LIST", max_inv=1, mon="C20"))
     # lines whose handlers trigger unsolicited events: the event machine is busy while the response ends and the next line begins
     for ring, shared in ((1, 0), (2, 1)):
-        sh.append(mcx("history-events-r%d" % ring, ring=ring, prop="C20", table=T_HIST + "||+e:vu1ro;+f:R", cap=8, shared=shared, name_alpha="+SRU", max_name=2, args_alpha="1", max_args=1,
+        sh.append(mcx("history-events-r%d" % ring, ring=ring, prop="C20", table=T_HIST + "||+e:vu1ro;+f:R", cap=8, shared=shared, name_alpha="+SRUA", max_name=3, args_alpha="1", max_args=1,
                       D=0, lines=0, crlf=1, blank=1, refuse_read=1, refuse_write=1, codes_W="OK", codes_R="DATA_OK", codes_U="OK", codes_T="DATA_OK", ecodes_R="DATA_OK,OK",
                       max_inv=1, ev="+e:R,+f:R", h_trigger=1, mon="C20"))
     return sh
@@ -311,7 +319,7 @@ def c20_shards(tier):
 def p_c20(tier):
     return {"shards": c20_shards(tier), "require": ["lines_done", "lines_blank", "implicit_hits", "overlong", "list_lines", "wvar_ok", "wvar_err"],
             "technique": "explicit-state model checking to the fixpoint over unboundedly many lines: every line of the family from every reachable quiescent residue, compared with the memoryless reference and the CR rule",
-            "bounds": "line family: grammar lines (names <=%d over 5 symbols, args <=2 over {1,-} at cap 8 and <=6 over {1} at cap 6, all four suffixes) with <=1 deviation from 9 bytes, LF and CRLF, blank lines" % (3 if tier == "quick" else 4),
+            "bounds": "line family: grammar lines (names <=%d over 6 symbols, args <=2 over {1,-} at cap 8 and <=6 over {1} at cap 6, all four suffixes) with <=1 deviation from 9 bytes, LF and CRLF, blank lines" % (3 if tier == "quick" else 4),
             "assumptions": ["variable values range over what the argument alphabet can write"]}
 
 
